@@ -33,7 +33,8 @@ def mut(prop, name, rel, old, new, expect='detect'):
 
 # ---------------------------------------------------------------------------------------------------------------- C01
 mut('C01', 'endpoint-weights-shifted', SW + 'generic_implicit.py', 'L.uend += L.dt * self.coll.weights[m] * L.f[m + 1]', 'L.uend += L.dt * self.coll.weights[m - 1] * L.f[m + 1]')
-mut('C01', 'recv-last-node-instead-of-uend', CT + 'controller_nonMPI.py', 'target.u[0] = target.prob.dtype_u(source.uend)', 'target.u[0] = target.prob.dtype_u(source.u[-1])')
+mut('C01', 'recv-last-node-instead-of-uend', CT + 'controller_nonMPI.py', 'target.u[0] = target.prob.dtype_u(source.uend)', 'target.u[0] = target.prob.dtype_u(source.u[-1])', expect='equivalent for C01: its oracle starts from the start value the step actually used (by design); the wrong start value is a chaining defect and is caught by C06 (same mutant listed there)')
+mut('C06', 'recv-last-node-instead-of-uend', CT + 'controller_nonMPI.py', 'target.u[0] = target.prob.dtype_u(source.uend)', 'target.u[0] = target.prob.dtype_u(source.u[-1])')
 mut('C01', 'restol-times-ten', CC + 'check_convergence.py', 'L.status.residual <= L.params.restol and', 'L.status.residual <= 10 * L.params.restol and')
 mut('C01', 'imex-endpoint-drops-expl', SW + 'imex_1st_order.py', 'L.uend += L.dt * self.coll.weights[m] * (L.f[m + 1].impl + L.f[m + 1].expl)', 'L.uend += L.dt * self.coll.weights[m] * (L.f[m + 1].impl)')
 # ---------------------------------------------------------------------------------------------------------------- C02
